@@ -357,7 +357,7 @@ Proof.
     - rewrite W_add_leaked, W_add_free. unfold nv. use_set_stream K. fold v in HW. unfold sslots in HW.
       cbn [sendb recvb pinned pend] in HW. rewrite ?cnt_app in *. cbn in HW. lia. }
   destruct (half v); [split; assumption |].
-  destruct (Z.of_nat (length (queue_to (negb e) s)) >=? qcap s).
+  destruct (infb v || (Z.of_nat (length (queue_to (negb e) s)) >=? qcap s)).
   - destruct (deliver_close_W x (negb e) sid s3 K3) as [K4 E4]. split; [exact K4 | lia].
   - split; [ko |]. rewrite W_enqueue; [cbn; lia |]. unfold s3, s2. destruct (fx s); destruct e; reflexivity.
 Qed.
@@ -536,7 +536,7 @@ Proof.
     { destruct (fx s) eqn:Fx; [qfr; exact H2 |]. cbn [close_guard] in G. destruct G as [G|G]; [congruence |].
       fold k v in G. rewrite G. destruct H2 as (A & B & C). split; [exact A | split; [| exact C]].
       cbn [add_leaked leaked]. cbn [add_leaked add_free set_stream leaked] in B. rewrite app_nil_r. exact B. }
-    destruct (half v); [exact H3 |]. destruct (_ >=? _); [apply Q_deliver_close; exact H3 | qfr; exact H3].
+    destruct (half v); [exact H3 |]. destruct (_ || _); [apply Q_deliver_close; exact H3 | qfr; exact H3].
   - unfold do_ext_hold. destruct (_ && _); [qfr |]; exact H.
   - qfr. exact H.
   - unfold do_inject. destruct (_ && _); cbn [negb]; [| exact H]. destruct (_ >=? _); [exact H |]. qfr. qfr. exact H.
